@@ -642,6 +642,7 @@ class EntryEmit:
         self.consts = consts      # rust const -> lean term
         self.tmp = 0
         self.pre = []             # hoisted statements for the expression being translated
+        self.checked_sub = False  # emit `a - b` as a trapping subtraction
 
     def name(self, n):
         return RENAME.get(n, camel_id(n))
@@ -655,13 +656,25 @@ class EntryEmit:
             if n == 'None': return 'none'
             if n == 'true' or n == 'false': return n
             if n in self.consts: return self.consts[n]
+            if n == 'u16::MAX': return '65535'
             if n.startswith('Policy::'):
                 return '.' + {'Invalid': 'invalid', 'Demote': 'demote', 'Steal': 'steal'}[n.split('::')[1]]
             if re.fullmatch(r"[a-z_][a-z0-9_]*", n): return self.name(n)
             raise TranslateError(f"entry: unknown path {n}")
         if k == 'not': return f"(!{self.ex(e[1])})"
+        if k == 'bin' and e[1] == '&&':
+            a = self.ex(e[2])
+            saved, self.pre = self.pre, []
+            b = self.ex(e[3])
+            inner, self.pre = self.pre, saved
+            if not inner and '(←' not in b: return f"({a} && {b})"
+            # the right operand can panic: Rust evaluates it only if the left one holds
+            t = self.fresh()
+            self.pre.append(('sc', t, a, e[3]))
+            return t
         if k == 'bin':
             op, a, b = e[1], self.ex(e[2]), self.ex(e[3])
+            if op == '-' and self.checked_sub: return f"(← csub {a} {b})"
             m = {'+': '+', '-': '-', '*': '*', '==': '==', '!=': '!=', '&&': '&&', '||': '||', '<<': '<<<'}
             if op in ('<', '<=', '>', '>='):
                 return f"(decide ({a} {dict(zip(['<','<=','>','>='],['<','≤','>','≥']))[op]} {b}))"
@@ -676,6 +689,7 @@ class EntryEmit:
                 return "(← with' tf " + " ".join(self.ex(a) for a in args) + ")" if self.ty == 'Tree' else \
                        "(← with' " + " ".join(self.ex(a) for a in args) + ")"
             if f == 'fetch_free' and not args: return "fetchFree"
+            if self.ty == 'Nat' and f in ('Self::new_with',): return f"(← newWith {self.ex(args[0])})"
             raise TranslateError(f"entry: call {f}")
         if k == 'tuple' and len(e[1]) == 1:
             return self.ex(e[1][0])
@@ -698,12 +712,19 @@ class EntryEmit:
             if name == 'checked_sub':
                 return f"(if {self.ex(args[0])} ≤ {self.ex(recv)} then some ({self.ex(recv)} - {self.ex(args[0])}) else none)"
             if name == 'clone' and not args: return self.ex(recv)
+            if self.ty == 'Nat':
+                if name == 'count' and not args: return self.ex(recv)
+                if name in ('huge', 'free') and not args: return f"(← {name} {self.ex(recv)})"
+                if name == 'with_count': return f"(← withCount {self.ex(args[0])})"
             raise TranslateError(f"entry: method .{name}()")
         if k == 'try':
             # `e?` on an Option: early return of `None`
             t = self.fresh()
             self.pre.append(('try', t, e[1]))
             return t
+        if k == 'cast':
+            if e[2] == '_' and self.ty == 'Nat': return self.ex(e[1]) + "/-as-/"
+            raise TranslateError(f"entry: cast to {e[2]}")
         if k == 'field':
             base = self.ex(e[1])
             return f"{base}.{ {'class': 'cls', 'operation': 'op'}.get(e[2], e[2]) }"
@@ -761,6 +782,11 @@ class EntryEmit:
             h = self.pre.pop(0)
             if isinstance(h, str):
                 out.append((ind, h))
+            elif h[0] == 'sc':
+                _, t, a, rhs = h
+                out.append((ind, f"let mut {t} := false"))
+                out.append((ind, f"if {a} then"))
+                out += self.with_pre(ind + 1, lambda: f"{t} := {self.ex(rhs)}")
             elif h[0] == 'try':
                 _, t, e = h
                 inner = self.with_pre(ind, lambda: f"match {self.ex(e)} with")
@@ -1067,7 +1093,45 @@ def gen_local(repo):
     return "\n".join(out) + "\n"
 
 
-GENERATORS = {'Consts': gen_consts, 'Fza': gen_fza, 'Leaf': gen_leaf, 'Tree': gen_tree, 'Local': gen_local}
+def gen_huge(repo):
+    """`impl HugeEntry` (lower.rs): a u16 counter with `u16::MAX` as the marker of a huge allocation"""
+    src = read(repo + '/core/src/lower.rs')
+    lay = bitfield_layout(src, 'HugeEntry')
+    if [(f[0], f[2]) for f in lay] != [('count', 'u16')]: raise TranslateError(f"HugeEntry fields {lay}")
+    out = ["/- GENERATED by tools/rs2lean.py from core/src/lower.rs (`impl HugeEntry`) — do not edit. -/",
+           "namespace LLFree.Gen.H", "",
+           "/-- a panic of the source is `throw msg` -/", "abbrev R := Except String", "",
+           "/-- `usize` subtraction (traps on underflow in the checked build) -/",
+           "def csub (a b : Nat) : R Nat := if b ≤ a then pure (a - b) else throw \"attempt to subtract with overflow\"", "",
+           "/-- `Self::new().with_count(v)`: the 16-bit field takes the value (a wider value was cast with `as`) -/",
+           "def withCount (v : Nat) : R Nat := if v < 2 ^ 16 then pure v else throw \"value out of bounds\"", ""]
+    em = EntryEmit('Nat', {}, {'Bitfield::LEN': 'len'})
+    em.checked_sub = True
+    within = 'impl HugeEntry {'
+    def fn(name, lean_name, sig, ret):
+        params, ast = parse_fn(src, name, within)
+        out.append(f"/-- `HugeEntry::{name}({' '.join(params.split())})` -/")
+        txt = emit_fn(em, lean_name, sig, ret, ast, False)
+        # `x as _` into the 16-bit field truncates
+        txt = re.sub(r"withCount ([^()]+?)/-as-/", r"withCount (\1 % 2 ^ 16)", txt).replace("/-as-/", "")
+        out.append(txt)
+    # `Self::new()` is the zero entry: `Self::new().with_count(v)` is `withCount v`
+    em_new = em.ex
+    def ex(e, _old=em_new):
+        if e[0] == 'mcall' and e[2] == 'with_count' and e[1] == ('call', 'Self::new', []):
+            return f"(← withCount {_old(e[3][0])})"
+        return _old(e)
+    em.ex = ex
+    fn('new_huge', 'newHuge', "", "Nat")
+    fn('new_with', 'newWith', "(free : Nat)", "Nat")
+    fn('huge', 'huge', "(self : Nat)", "Bool")
+    fn('free', 'free', "(self : Nat)", "Nat")
+    fn('dec', 'dec', "(self numFrames : Nat)", "(Option Nat)")
+    fn('inc', 'inc', "(len self numFrames : Nat)", "(Option Nat)")
+    out.append("end LLFree.Gen.H")
+    return "\n".join(out) + "\n"
+
+GENERATORS = {'Consts': gen_consts, 'Fza': gen_fza, 'Leaf': gen_leaf, 'Tree': gen_tree, 'Local': gen_local, 'Huge': gen_huge}
 
 def write_if_changed(path, txt):
     if os.path.exists(path) and read(path) == txt: return False
